@@ -367,10 +367,14 @@ fn record(c: &Cfg, o: &Out, out: &mut Partial) {
             out.violation(
                 key,
                 format!("{} plan, late joiner {:?}, deviations {devs:?}: {d}", if c.public { "public" } else { "private" }, c.late),
-                json!({"public": c.public, "late": c.late.map(|(p, m)| vec![p as u64, m]), "devs": c.devs.iter().map(|d| json!({"at_s": d.at / SEC, "act": match d.act { Act::Crash(p) => format!("crash{p}"), Act::Restart(p) => format!("restart{p}"), Act::Lookup => "lookup".to_string() }})).collect::<Vec<_>>(), "horizon_min": c.horizon / MIN, "observer_first": c.observer_first}),
+                cfg_json(c),
             );
         }
     }
+}
+
+fn cfg_json(c: &Cfg) -> Value {
+    json!({"public": c.public, "late": c.late.map(|(p, m)| vec![p as u64, m]), "devs": c.devs.iter().map(|d| json!({"at_s": d.at / SEC, "act": match d.act { Act::Crash(p) => format!("crash{p}"), Act::Restart(p) => format!("restart{p}"), Act::Lookup => "lookup".to_string() }})).collect::<Vec<_>>(), "horizon_min": c.horizon / MIN, "observer_first": c.observer_first})
 }
 
 fn placements(horizon: u64, reduced: bool) -> Vec<u64> {
@@ -459,8 +463,10 @@ fn run(tier: Tier, shard: usize, nshards: usize, _seed: u64) -> Partial {
         if i % nshards != shard {
             continue;
         }
-        let o = scenario(c, i % 40 == 0);
-        record(c, &o, &mut out);
+        super::guard_dead_actor(&mut out, &format!("{}/{}", if c.public { "public" } else { "private" }, c.devs.iter().map(dev_desc).collect::<Vec<_>>().join("+")), cfg_json(c), |out| {
+            let o = scenario(c, i % 40 == 0);
+            record(c, &o, out);
+        });
     }
     out.witness("timelines without a problem", out.count("healthy_runs") > 0);
     out.witness("several refreshes happened", out.gauges.get("max_refreshes_in_one_run").copied().unwrap_or(0) >= 3 || shard != 0);
@@ -489,8 +495,16 @@ fn replay(v: &Value) -> Result<Option<Violation>, String> {
         .collect();
     let late = v.get("late").and_then(|l| l.as_array()).and_then(|a| Some((a.first()?.as_u64()? as usize, a.get(1)?.as_u64()?)));
     let cfg = Cfg { public: v.get("public").and_then(|p| p.as_bool()).unwrap_or(false), late, devs, horizon: v.get("horizon_min").and_then(|h| h.as_u64()).unwrap_or(65) * MIN, observer_first: v.get("observer_first").and_then(|h| h.as_bool()).unwrap_or(false) };
-    let o = scenario(&cfg, false);
     let mut out = Partial::default();
+    let mut died = Partial::default();
+    super::guard_dead_actor(&mut died, "replay", v.clone(), |_| {});
+    let o = match std::panic::catch_unwind(std::panic::AssertUnwindSafe(|| scenario(&cfg, false))) {
+        Ok(o) => o,
+        Err(p) => match p.downcast::<crate::sim::DeadActor>() {
+            Ok(d) => return Ok(Some(Violation { key: "actor-died".into(), desc: format!("the actor thread of node {} {}", d.node, d.why), replay: v.clone() })),
+            Err(other) => std::panic::resume_unwind(other),
+        },
+    };
     record(&cfg, &o, &mut out);
     Ok(out.violations.into_iter().next())
 }
